@@ -134,6 +134,31 @@ Fixpoint t_run (cap : N) (now : nat) (l : tl) (ops : list op) : tl * list obs :=
               let '(l2, obs) := t_run cap (S now) l1 t in (l2, ob :: obs)
   end.
 
+(* ---------- "get(k) returns the most recent value put for k if k has not been evicted or removed" ----------
+   u: the map without a capacity (most recent value put per key, minus removes and clears);
+   ev: the keys reported to the eviction callback since they were last put *)
+Definition u_step (u : rl) (o : op) : rl :=
+  match o with
+  | Put k v => (k, v) :: del k u
+  | Remove k => del k u
+  | Clear => []
+  | _ => u
+  end.
+Definition drop (k : N) (e : list N) : list N := filter (fun x => negb (x =? k)) e.
+Definition ev_step (e : list N) (o : op) (cb : list (N * N)) : list N :=
+  match o with
+  | Put k _ => drop k e ++ map fst cb
+  | Remove k => drop k e
+  | Clear => []
+  | _ => e ++ map fst cb
+  end.
+(* run the spec, the capacity-free map and the evicted-set side by side *)
+Fixpoint sue_run (cap : N) (l u : rl) (e : list N) (ops : list op) : rl * rl * list N :=
+  match ops with
+  | [] => (l, u, e)
+  | o :: t => let '(l1, (_, cb)) := s_step cap l o in sue_run cap l1 (u_step u o) (ev_step e o cb) t
+  end.
+
 (* ---------- page cache: bytes of a file in a range ---------- *)
 Definition file_range (file : list N) (off len : N) : list N :=
   firstn (N.to_nat len) (skipn (N.to_nat off) file).
